@@ -1,5 +1,5 @@
 """C13 - irrigation strategies honour their contracts (kind B, exploration)."""
-from .common import std_case, std_run, STATE_MEASURE  # noqa: F401
+from .common import year_long_case, std_case, std_run, STATE_MEASURE  # noqa: F401
 from ..monitors import mon_c13
 
 ID = "C13"
@@ -19,6 +19,9 @@ PROFILE = {"reactive_p": 0.3, "irr_methods": [0, 1, 1, 1, 2, 2, 3, 3, 4, 5, 5], 
 
 
 def gen_case(rng, tier, idx):
+    if idx % 8 == 5:
+        # year-long seasons that touch (harvest date = next planting date): seasonal totals and counters across the boundary
+        return year_long_case(rng, PROFILE)
     if idx % 4 == 3:
         # threshold irrigation whose targets differ strongly between growth stages, on crops in both calendar modes, with the
         # development clock running apart from the calendar (dry seed bed -> delayed germination; dry spells): the days
